@@ -79,6 +79,29 @@ def check_config(cfg, db, chk):
                    key="pid-filter-cmp|%s|%s" % (cfg, f.name))
             for d in f.calls_to(r"drop_without_deallocation$"):
                 chk.ob("taken-value-is-leaked", "%s: %s" % (cfg, f.name.split("registry::")[-1]), fl.derives_from_call(d.args[0], r"Option::<T>::take$"), "", d.where(), key="taken-leaked|%s|%s" % (cfg, f.name))
+    # owner pid: stamped once at registration, carried over by every transformation of a registered tempfile
+    new = db.one(r"^gix_tempfile::forksafe::ForksafeTempfile::new$")
+    pid_callers = sorted({f.name for f in tfns.values() if f.kind != "promoted" for c in f.calls() if c.is_(r"^std::process::id$")})
+    allowed = {new.name, "gix_tempfile::registry::cleanup_tempfiles_signal_safe", "gix_tempfile::registry::cleanup_tempfiles"}
+    chk.ob("owner-pid-stamped-at-registration", "%s: callers of std::process::id" % cfg, set(pid_callers) <= allowed and new.name in pid_callers, "process id is read in %s" % pid_callers, "%s:%d" % (new.file, new.line), key="owner-pid|%s|pid-callers" % cfg)
+    new_callers = sorted({f.name for f in tfns.values() if f.kind != "promoted" for c in f.calls() if c.is_(r"^gix_tempfile::forksafe::ForksafeTempfile::new$")})
+    okc = bool(new_callers) and all(re.search(r"gix_tempfile::handle::<impl gix_tempfile::Handle<\(\)>>::(at_path|new_writable_inner)", n) for n in new_callers)
+    chk.ob("owner-pid-stamped-at-registration", "%s: ForksafeTempfile::new only when a tempfile is first registered" % cfg, okc,
+           "ForksafeTempfile::new (which stamps the current pid) is called from %s; a transformation of an inherited tempfile in a forked child would claim the parent's file" % new_callers, "%s:%d" % (new.file, new.line), key="owner-pid|%s|new-callers" % cfg)
+    nb = 0
+    for f in tfns.values():
+        if f.kind == "promoted" or f.name == new.name:
+            continue
+        ffl = None
+        for bi, si, pl, rv, ln, mc in f.assigns():
+            if rv[0] == "agg" and rv[1] == "adt" and rv[2] == "gix_tempfile::forksafe::ForksafeTempfile" and len(rv) > 5 and "owning_process_id" in rv[5]:
+                nb += 1
+                ffl = ffl or Flow(f)
+                o = rv[4][rv[5].index("owning_process_id")]
+                src = ffl.roots(o, stop_named=False)
+                ok = any(r[0] == "arg" and ".owning_process_id" in r[2] for r in src) and not any(r[0] == "call" for r in src)
+                chk.ob("owner-pid-carried-over", "%s: %s" % (cfg, f.name), ok, "a rebuilt ForksafeTempfile must keep self.owning_process_id, got %s" % sorted(map(str, src))[:3], "%s:%d" % (f.file, ln), key="owner-pid|%s|%s" % (cfg, f.name))
+    chk.floor("%s: ForksafeTempfile rebuilt outside new()" % cfg, nb, 1)
     # persist ordering
     ps = db.find(r"^gix_tempfile::handle::persist::<impl gix_tempfile::Handle<gix_tempfile::handle::(Writable|Closed)>>::persist$")
     chk.floor("%s: Handle::persist impls" % cfg, len(ps), 2)
